@@ -176,7 +176,11 @@ func (v *value) updateTimestamp() error {
 	if min > max || min < 0 {
 		return fmt.Errorf("invalid delta_min/delta_max on timestamp for %q", v.v)
 	}
-	v.v.Timestamp.Timestamp = t + v.r.Int63n(max-min+1) + min
+	n := max - min + 1
+	if n <= 0 {
+		return fmt.Errorf("delta_min/delta_max span too large on timestamp for %q", v.v)
+	}
+	v.v.Timestamp.Timestamp = t + v.r.Int63n(n) + min
 	return nil
 }
 
